@@ -77,11 +77,17 @@ def run(ctx):
                          {"op": "rel", "host": "src", "class": "blob_get", "n": "L2"}, {"op": "settle"},
                          {"op": "rel", "host": "src", "class": "blob_get", "n": "LB"}, {"op": "settle"}])
     scns = scripts + sw + sh_sw
-    scns, dropped = cc.limit_defect_prone(rng, scns, 2500 if th else 300)
+    scns, dropped = cc.limit_defect_prone(rng, scns, 700 if th else 300)
     res = bres + e.run(scns + [demo], "faults")
 
     # 3. validation against (P)
-    acc, rej = e.validate(res, "C04", max_reports=40)
+    # the class in which the known defect C04-1 shows is validated on its own, so that its rejections
+    # (each costs a TLC restart) cannot use up the report budget of everything else
+    res_b = [(sc, t) for sc, t in res if cc.defect_prone(sc)]
+    res_a = [(sc, t) for sc, t in res if not cc.defect_prone(sc)]
+    acc, rej = e.validate(res_a, "C04", max_reports=40)
+    acc_b, rej_b = e.validate(res_b, "C04-layout-faults", max_reports=80)
+    acc, rej = acc + acc_b, rej + rej_b
 
     # 4. binding demo
     e.check_stalls()
